@@ -209,6 +209,72 @@ static void do_frame(const Cmd& c) {
 }
 
 // ------------------------------------------------------------------------------------------------------------------
+struct Rng { uint64_t s; uint64_t next() { s ^= s << 13; s ^= s >> 7; s ^= s << 17; return s; } unsigned below(unsigned n) { return unsigned(next() % n); } };
+// A <F fields> salt : frame + argument assignment through the public API (FuncArgsAssignment): every argument (register- or
+// stack-passed) is assigned either to a distinct GP register or to an 8-byte slot of the local area (stack -> stack moves are the
+// API-level form of the allocator's kStackArgToStack copies).  update_func_frame() + finalize(), then emit_prolog,
+// emit_args_assignment and emit_epilog into Builders.  Answer:
+//   A 0 | <frame answer as for F> | S <n> <insts of emit_args_assignment> | X <nargs> (srcKind srcVal dstKind dstVal)*
+//   kinds: 0 = GP register id, 1 = stack (src: offset from the first stack argument, dst: offset from the body sp)
+// ------------------------------------------------------------------------------------------------------------------
+static void do_args_frame(const Cmd& c) {
+  Environment env = make_env(c);
+  Built b;
+  if (!build_frame(c, env, b)) { printf("A %u\n", unsigned(b.err_detail != Error::kOk ? b.err_detail : b.err_frame)); return; }
+  FuncFrame& f = b.frame;
+  apply_user(c, f);
+  unsigned nargs = b.func.arg_count();
+  unsigned ws = c.arch == 0 ? 4 : 8;
+  if (f.local_stack_size() < 8 * nargs + 8) f.set_local_stack_size(8 * nargs + 8);
+  FuncFrame probe = f;
+  if (probe.finalize() != Error::kOk) { printf("A 0 refused\n"); return; }
+  uint32_t loff = probe.local_stack_offset();
+  Rng rng{c.salt * 0x9E3779B97F4A7C15ull + 0x51ull};
+  rng.next();
+  // candidate destination registers
+  std::vector<unsigned> cand;
+  unsigned ngp = c.arch == 2 ? 29 : (c.arch == 0 ? 8 : 16);
+  for (unsigned r = 0; r < ngp; r++) {
+    if (c.arch == 2) { if (r == 18 || r == 16 || r == 17) continue; }
+    else if (r == 4 || r == 5) continue;
+    if (c.sareg != 255 && r == c.sareg) continue;
+    cand.push_back(r);
+  }
+  for (size_t i = cand.size(); i > 1; i--) std::swap(cand[i - 1], cand[rng.below(unsigned(i))]);
+  FuncArgsAssignment args(&b.func);
+  struct Exp { unsigned sk; long long sv; unsigned dk; long long dv; };
+  std::vector<Exp> exp;
+  size_t next_reg = 0;
+  for (unsigned i = 0; i < nargs; i++) {
+    const FuncValue& src = b.func.arg(i);
+    Exp e{};
+    if (src.is_reg()) { e.sk = 0; e.sv = src.reg_id(); } else { e.sk = 1; e.sv = src.stack_offset(); }
+    bool to_stack = rng.below(3) == 0 || next_reg >= cand.size();
+    if (to_stack) { e.dk = 1; e.dv = loff + 8 * i; args.assign_stack(i, int32_t(loff + 8 * i), c.arch == 0 ? TypeId::kUInt32 : TypeId::kUInt64); }
+    else {
+      unsigned r = cand[next_reg++]; e.dk = 0; e.dv = r;
+      if (c.arch == 2) args.assign_reg(i, a64::Gp::make_r64(r)); else if (c.arch == 0) args.assign_reg(i, x86::Gp::make_r32(r)); else args.assign_reg(i, x86::Gp::make_r64(r));
+    }
+    exp.push_back(e);
+  }
+  (void)ws;
+  Error ue = args.update_func_frame(f);
+  if (ue != Error::kOk) { printf("A 0 refused update %u\n", unsigned(ue)); return; }
+  if (f.finalize() != Error::kOk) { printf("A 0 refused\n"); return; }
+  printf("A 0 | F 0");
+  print_frame_answer(c.arch, env, b.func, f);
+  std::string text; unsigned n = 0; Error ae = Error::kOk;
+  {
+    CodeHolder code; code.init(env);
+    if (c.arch == 2) { a64::Builder bld(&code); ae = bld.emit_args_assignment(f, args); text = dump_builder(bld, env.arch(), n); }
+    else { x86::Builder bld(&code); ae = bld.emit_args_assignment(f, args); text = dump_builder(bld, env.arch(), n); }
+  }
+  printf(" | S %u %u %s | X %u", unsigned(ae), n, text.c_str(), nargs);
+  for (auto& e : exp) printf(" %u %lld %u %lld", e.sk, e.sv, e.dk, e.dv);
+  printf("\n");
+}
+
+// ------------------------------------------------------------------------------------------------------------------
 // Frames the Compiler really produces.   C arch plat cc seed  ->
 //   C <err> | <equivalent frame command: arch plat cc 0 attrs d0 d1 d2 d3 lsize lalign csize calign sareg argstack> | F 0 I ... (as for F)
 //     | H <nInst> <prologMatches> <epilogMatches> <unsavedWrites> <badSpAccesses> <spAccesses> <detail>
@@ -217,7 +283,6 @@ static void do_frame(const Cmd& c) {
 // hits a register of the frame's saved set; every sp-based memory operand of the body lies inside the call area, the local
 // area or the stack-argument area.
 // ------------------------------------------------------------------------------------------------------------------
-struct Rng { uint64_t s; uint64_t next() { s ^= s << 13; s ^= s >> 7; s ^= s << 17; return s; } unsigned below(unsigned n) { return unsigned(next() % n); } };
 
 static std::string inst_text(InstNode* in, Arch arch) {
   String name;
@@ -251,8 +316,18 @@ static void compiled_frame(const Cmd& c, GenT&& gen) {
   // ---- hand-over checks
   Arch arch = env.arch();
   std::vector<InstNode*> insts;
-  for (BaseNode* node = fn->next(); node && node != fn->end_node(); node = node->next())
+  std::vector<std::pair<uint32_t, size_t>> label_pos;     // label id -> index of the next instruction
+  for (BaseNode* node = fn->next(); node && node != fn->end_node(); node = node->next()) {
     if (node->is_inst()) insts.push_back(node->as<InstNode>());
+    else if (node->type() == NodeType::kLabel) label_pos.push_back(std::make_pair(node->as<LabelNode>()->label_id(), insts.size()));
+  }
+  if (getenv("C07_DUMP")) {
+    size_t k = 0;
+    for (BaseNode* node = fn->next(); node && node != fn->end_node(); node = node->next()) {
+      if (node->is_inst()) fprintf(stderr, "%3zu  %s\n", k++, inst_text(node->as<InstNode>(), env.arch()).c_str());
+      else if (node->type() == NodeType::kLabel) fprintf(stderr, "L%u:\n", node->as<LabelNode>()->label_id());
+    }
+  }
   std::vector<std::string> pro, epi;
   {
     CodeHolder c2; c2.init(env); CompilerT* dummy = nullptr; (void)dummy;
@@ -266,12 +341,24 @@ static void compiled_frame(const Cmd& c, GenT&& gen) {
   }
   bool pm = insts.size() >= pro.size() + epi.size(), em = pm;
   for (size_t i = 0; pm && i < pro.size(); i++) if (inst_text(insts[i], arch) != pro[i]) pm = false;
-  for (size_t i = 0; em && i < epi.size(); i++) if (inst_text(insts[insts.size() - epi.size() + i], arch) != epi[i]) em = false;
+  // the epilog sits at the function's exit label; the allocator may place out-of-line blocks after it: search backwards
+  size_t epos = insts.size();
+  if (em) {
+    em = false;
+    for (size_t p = insts.size() - epi.size() + 1; p-- > pro.size();) {
+      bool same = true;
+      for (size_t i = 0; same && i < epi.size(); i++) if (inst_text(insts[p + i], arch) != epi[i]) same = false;
+      if (same) { em = true; epos = p; break; }
+    }
+  }
   unsigned unsaved = 0, badsp = 0, spacc = 0, uninit = 0;
-  std::vector<bool> local_init(size_t(f.local_stack_size()) + 64, false);   // bytes of the local area written so far (straight-line code)
+  // local-area accesses per instruction, judged after a forward must-initialised dataflow over the function's CFG
+  struct LAcc { size_t inst; int64_t off, size; bool rd, wr; };
+  std::vector<LAcc> laccs;
   std::string detail = "-";
   uint32_t spid = c.arch == 2 ? 31u : 4u;
-  size_t lo = pm ? pro.size() : 0, hi = em ? insts.size() - epi.size() : insts.size();
+  size_t lo = pm ? pro.size() : 0, hi = insts.size();
+  size_t elo = em ? epos : insts.size(), ehi = em ? epos + epi.size() : insts.size();
   for (size_t i = 0; i < insts.size(); i++) {
     InstNode* in = insts[i];
     InstRWInfo rw;
@@ -291,7 +378,7 @@ static void compiled_frame(const Cmd& c, GenT&& gen) {
         }
       }
     }
-    if (i >= lo && i < hi) {
+    if (i >= lo && i < hi && !(i >= elo && i < ehi)) {
       for (size_t k = 0; k < in->op_count(); k++) {
         const Operand_& op = in->operands()[k];
         if (!op.is_mem()) continue;
@@ -326,11 +413,58 @@ static void compiled_frame(const Cmd& c, GenT&& gen) {
           if (c.arch == 2) { asz = 0; for (size_t q = 0; q < in->op_count(); q++) if (in->operands()[q].is_reg()) asz += in->operands()[q].as<Reg>().size(); if (!asz) asz = 8; }
           bool rd = rw.operand(k).is_read(), wr = rw.operand(k).is_write();
           if (c.arch == 2) { uint32_t id = in->inst_id(); wr = (id == a64::Inst::kIdStr || id == a64::Inst::kIdStp || id == a64::Inst::kIdStr_v || id == a64::Inst::kIdStp_v || id == a64::Inst::kIdStur || id == a64::Inst::kIdStur_v || id == a64::Inst::kIdStrb || id == a64::Inst::kIdStrh); rd = !wr; }
-          if (rd && !local_init[size_t(off - lo_l)]) { if (!uninit) detail = "uninit:" + inst_text(in, arch); uninit++; }
-          if (wr) for (int64_t q = off; q < off + asz && q < hi_l; q++) local_init[size_t(q - lo_l)] = true;
+          laccs.push_back(LAcc{ i, off - lo_l, asz, rd, wr });
         }
       }
     }
+  }
+  // ---- must-initialised dataflow (byte granularity) over the CFG: IN[i] = intersection of OUT[pred]; a read of a local byte
+  // that is not initialised on EVERY path from the entry is reported
+  {
+    size_t n = insts.size(), nb = size_t(f.local_stack_size());
+    std::vector<std::vector<size_t>> succ(n);
+    for (size_t i = 0; i < n; i++) {
+      InstNode* in = insts[i];
+      bool has_label = false, uncond = false, is_ret = false;
+      uint32_t id = in->inst_id();
+      if (c.arch == 2) {
+        uint32_t real = BaseInst::extract_real_id(id);
+        uncond = (real == a64::Inst::kIdB) && (BaseInst::extract_arm_cond_code(id) == arm::CondCode::kAL);
+        is_ret = (real == a64::Inst::kIdRet);
+      }
+      else { uncond = (id == x86::Inst::kIdJmp); is_ret = (id == x86::Inst::kIdRet); }
+      for (size_t k = 0; k < in->op_count(); k++) {
+        const Operand_& op = in->operands()[k];
+        if (op.is_label()) {
+          has_label = true;
+          for (auto& lp : label_pos) if (lp.first == op.as<Label>().id() && lp.second < n) succ[i].push_back(lp.second);
+        }
+      }
+      if (!(uncond && has_label) && !is_ret && i + 1 < n) succ[i].push_back(i + 1);
+    }
+    std::vector<std::vector<bool>> inb(n, std::vector<bool>(nb, true));
+    if (n) inb[0].assign(nb, false);
+    std::vector<std::vector<const LAcc*>> per(n);
+    for (auto& a : laccs) per[a.inst].push_back(&a);
+    std::vector<size_t> work;
+    for (size_t i = 0; i < n; i++) work.push_back(n - 1 - i);
+    std::vector<bool> inq(n, true);
+    while (!work.empty()) {
+      size_t i = work.back(); work.pop_back(); inq[i] = false;
+      std::vector<bool> out = inb[i];
+      for (const LAcc* a : per[i]) if (a->wr) for (int64_t q = a->off; q < a->off + a->size && q < int64_t(nb); q++) out[size_t(q)] = true;
+      for (size_t sidx : succ[i]) {
+        bool changed = false;
+        for (size_t q = 0; q < nb; q++) if (inb[sidx][q] && !out[q]) { inb[sidx][q] = false; changed = true; }
+        if (changed && !inq[sidx]) { inq[sidx] = true; work.push_back(sidx); }
+      }
+    }
+    for (auto& a : laccs)
+      if (a.rd && a.off >= 0 && size_t(a.off) < nb && !inb[a.inst][size_t(a.off)]) {
+        // a read-modify-write of the same operand is a read first
+        if (!uninit) detail = "uninit:" + inst_text(insts[a.inst], arch);
+        uninit++;
+      }
   }
   for (char& ch : detail) if (ch == ' ') ch = '_';
   printf(" | H %u %u %u %u %u %u %s %u\n", unsigned(insts.size()), unsigned(pm), unsigned(em), unsaved, badsp, spacc, detail.c_str(), uninit);
@@ -341,6 +475,8 @@ static void do_compiled(const Cmd& c) {
   rng.next();
   unsigned nargs = rng.below(4) == 0 ? 12 + rng.below(13) : rng.below(12), ngp = 1 + rng.below(28), nvec = rng.below(24), ncalls = rng.below(3), call_args = rng.below(13);
   bool fp = rng.below(3) == 0, avx = rng.below(3) == 0, big_local = rng.below(4) == 0;
+  unsigned ndiamonds = rng.below(2) ? rng.below(4) : 0;
+  bool with_loop = rng.below(4) == 0;
   FuncSignature sig;
   sig.set_call_conv_id(CallConvId(c.cc));
   sig.set_ret(TypeId::kUIntPtr);
@@ -382,6 +518,26 @@ static void do_compiled(const Cmd& c) {
         a64::Gp r = cc.new_gp64(); inv->set_ret(0, r); v.push_back(r);
       }
       a64::Gp acc = cc.new_gp64(); cc.mov(acc, 0);
+      // control flow: diamonds whose arms create different pressure, and a counted loop
+      for (unsigned d = 0; d < ndiamonds && v.size() >= 2; d++) {
+        Label L_else = cc.new_label(), L_end = cc.new_label();
+        a64::Gp u = cc.new_gp64(); cc.mov(u, 1);          // defined on every path, redefined in one arm
+        cc.cmp(v[d % v.size()], v[(d + 1) % v.size()]);
+        cc.b_eq(L_else);
+        { a64::Gp t = cc.new_gp64(); cc.mov(t, 1000 + d); for (unsigned k = 0; k < 6 && k < v.size(); k++) cc.add(t, t, v[(k * 3 + d) % v.size()]); cc.add(acc, acc, t); }
+        cc.b(L_end);
+        cc.bind(L_else);
+        { a64::Gp t = cc.new_gp64(); cc.mov(t, 2000 + d); cc.mov(u, 3); cc.add(t, t, u); cc.add(acc, acc, t); }
+        v.push_back(u);
+        cc.bind(L_end);
+      }
+      if (with_loop) {
+        Label L_loop = cc.new_label(); a64::Gp cnt = cc.new_gp64(); cc.mov(cnt, 3);
+        cc.bind(L_loop);
+        for (unsigned k = 0; k < v.size(); k += 2) cc.add(acc, acc, v[k]);
+        cc.subs(cnt, cnt, 1);
+        cc.b_ne(L_loop);
+      }
       for (auto& r : v) cc.add(acc, acc, r);
       if (!x.empty()) { a64::Vec xa = x[0]; for (size_t i = 1; i < x.size(); i++) cc.add(xa.s4(), xa.s4(), x[i].s4()); a64::Gp t = cc.new_gp64(); cc.mov(t, xa.d(0)); cc.add(acc, acc, t); }
       cc.ret(acc);
@@ -411,6 +567,25 @@ static void do_compiled(const Cmd& c) {
         x86::Gp r = cc.new_gpz(); inv->set_ret(0, r); v.push_back(r);
       }
       x86::Gp acc = cc.new_gpz(); cc.xor_(acc, acc);
+      for (unsigned d = 0; d < ndiamonds && v.size() >= 2; d++) {
+        Label L_else = cc.new_label(), L_end = cc.new_label();
+        x86::Gp u = cc.new_gpz(); cc.mov(u, 1);
+        cc.cmp(v[d % v.size()], v[(d + 1) % v.size()]);
+        cc.jz(L_else);
+        { x86::Gp t = cc.new_gpz(); cc.mov(t, 1000 + d); for (unsigned k = 0; k < 6 && k < v.size(); k++) cc.add(t, v[(k * 3 + d) % v.size()]); cc.add(acc, t); }
+        cc.jmp(L_end);
+        cc.bind(L_else);
+        { x86::Gp t = cc.new_gpz(); cc.mov(t, 2000 + d); cc.mov(u, 3); cc.add(t, u); cc.add(acc, t); }
+        v.push_back(u);
+        cc.bind(L_end);
+      }
+      if (with_loop) {
+        Label L_loop = cc.new_label(); x86::Gp cnt = cc.new_gpz(); cc.mov(cnt, 3);
+        cc.bind(L_loop);
+        for (unsigned k = 0; k < v.size(); k += 2) cc.add(acc, v[k]);
+        cc.dec(cnt);
+        cc.jnz(L_loop);
+      }
       for (auto& r : v) cc.add(acc, r);
       if (!x.empty()) { x86::Vec xa = x[0]; for (size_t i = 1; i < x.size(); i++) { if (avx) cc.vpaddd(xa, xa, x[i]); else cc.paddd(xa, x[i]); } x86::Gp t = cc.new_gp32(); if (avx) cc.vmovd(t, xa); else cc.movd(t, xa); cc.add(acc.r32(), t); }
       cc.ret(acc);
@@ -596,16 +771,26 @@ extern "C" __attribute__((noinline)) uint64_t c07_helper9(uint64_t a, uint64_t b
   return a + b + c + d + e + f + g + h + i + 7;
 }
 
+extern "C" __attribute__((noinline, ms_abi)) uint64_t c07_helper9_win(uint64_t a, uint64_t b, uint64_t c, uint64_t d, uint64_t e, uint64_t f, uint64_t g, uint64_t h, uint64_t i) {
+  volatile uint64_t sink[8];
+  for (int k = 0; k < 8; k++) sink[k] = a * (k + 3);
+  (void)sink;
+  return a + b + c + d + e + f + g + h + i + 7;
+}
+
 static void run_native_compiled(const Cmd& c) {
   using namespace x86;
+  const bool win = c.plat == 1;     // Win64 convention (callee-saved rdi/rsi/xmm6-15, 32-byte home area) called through our own trampoline
   Rng rng{c.salt * 0x9E3779B97F4A7C15ull + 0xABCDEFull};
   rng.next();
-  unsigned nargs = rng.below(25), ngp = rng.below(20), ncalls = rng.below(3);
+  unsigned nargs = rng.below(25), ngp = rng.below(20), ncalls = rng.below(3), nvec = rng.below(14);
   bool fp = rng.below(3) == 0, aligned_local = rng.below(2) == 0;
   unsigned local_align = rng.below(2) ? 32 : 64;
   JitRuntime rt;
   CodeHolder code;
-  code.init(rt.environment());
+  Environment cenv = rt.environment();
+  if (win) { cenv.set_platform(Platform::kWindows); cenv.set_platform_abi(PlatformABI::kMSVC); }
+  code.init(cenv);
   x86::Compiler cc(&code);
   FuncSignature sig;
   sig.set_call_conv_id(CallConvId::kCDecl);
@@ -623,11 +808,20 @@ static void run_native_compiled(const Cmd& c) {
   uint64_t salt = c.salt * 0x2545F4914F6CDD1Dull + 99;
   auto rnd = [&]() { salt ^= salt << 13; salt ^= salt >> 7; salt ^= salt << 17; return salt; };
   for (int i = 0; i < 16; i++) ctx.gp_in[i] = rnd() | 1;
-  static const unsigned arg_regs[6] = { 7, 6, 2, 1, 8, 9 };
+  static const unsigned arg_regs_sysv[6] = { 7, 6, 2, 1, 8, 9 };
+  static const unsigned arg_regs_win[4] = { 1, 2, 8, 9 };
+  const unsigned nreg_args = win ? 4 : 6;
   std::vector<x86::Gp> v; std::vector<uint64_t> val;
   for (unsigned i = 0; i < nargs; i++) {
     x86::Gp a = cc.new_gp64(); fn->set_arg(i, a); v.push_back(a);
-    val.push_back(i < 6 ? ctx.gp_in[arg_regs[i]] : 0x5A5A000000000000ull + 8 * (i - 6));
+    if (i < nreg_args) val.push_back(ctx.gp_in[win ? arg_regs_win[i] : arg_regs_sysv[i]]);
+    else val.push_back(0x5A5A000000000000ull + (win ? 32 + 8 * (i - 4) : 8 * (i - 6)));
+  }
+  // vector values that stay live across the calls (xmm6-15 are callee-saved on Win64, everything is spilled on SysV)
+  std::vector<x86::Vec> xv; uint32_t vec_sum = 0;
+  for (unsigned i = 0; i < nvec; i++) {
+    x86::Vec x = cc.new_xmm(); x86::Gp t = cc.new_gp32(); uint32_t cst = 0x01010101u * (i + 1) + 7u * i;
+    cc.mov(t, cst); cc.movd(x, t); xv.push_back(x); vec_sum += cst;
   }
   for (unsigned i = 0; i < ngp; i++) { x86::Gp r = cc.new_gp64(); cc.mov(r, i + 1); v.push_back(r); val.push_back(i + 1); }
   x86::Mem slot;
@@ -637,15 +831,45 @@ static void run_native_compiled(const Cmd& c) {
   }
   for (unsigned k = 0; k < ncalls && !v.empty(); k++) {
     InvokeNode* inv = nullptr;
-    if (cc.invoke(Out(inv), uint64_t(uintptr_t(&c07_helper9)), callee) != Error::kOk) { printf("N skip invoke\n"); return; }
+    if (cc.invoke(Out(inv), win ? uint64_t(uintptr_t(&c07_helper9_win)) : uint64_t(uintptr_t(&c07_helper9)), callee) != Error::kOk) { printf("N skip invoke\n"); return; }
     uint64_t r = 7;
     for (unsigned i = 0; i < 9; i++) { inv->set_arg(i, v[(i + k) % v.size()]); r += val[(i + k) % v.size()]; }
     x86::Gp rr = cc.new_gp64(); inv->set_ret(0, rr); v.push_back(rr); val.push_back(r);
   }
   x86::Gp acc = cc.new_gp64(); cc.xor_(acc, acc);
   uint64_t expected = 0;
+  // diamonds (both arms are generated; the concrete argument values decide which one runs) and a counted loop
+  unsigned ndiamonds = rng.below(2) ? rng.below(4) : 0;
+  bool with_loop = rng.below(4) == 0;
+  for (unsigned d = 0; d < ndiamonds && v.size() >= 2; d++) {
+    Label L_else = cc.new_label(), L_end = cc.new_label();
+    size_t ia = d % v.size(), ib = (d % 2) ? ia : (d * 5 + 1) % v.size();      // odd diamonds take the else arm
+    x86::Gp u = cc.new_gp64(); cc.mov(u, 1);
+    cc.cmp(v[ia], v[ib]);
+    cc.jz(L_else);
+    uint64_t then_val = 1000 + d;
+    { x86::Gp t = cc.new_gp64(); cc.mov(t, 1000 + d); for (unsigned k = 0; k < 6 && k < v.size(); k++) { cc.add(t, v[(k * 3 + d) % v.size()]); then_val += val[(k * 3 + d) % v.size()]; } cc.add(acc, t); }
+    cc.jmp(L_end);
+    cc.bind(L_else);
+    { x86::Gp t = cc.new_gp64(); cc.mov(t, 2000 + d); cc.mov(u, 3); cc.add(t, u); cc.add(acc, t); }
+    cc.bind(L_end);
+    bool taken_else = (val[ia] == val[ib]);
+    expected += taken_else ? uint64_t(2000 + d + 3) : then_val;
+    v.push_back(u); val.push_back(taken_else ? 3 : 1);
+  }
+  if (with_loop) {
+    Label L_loop = cc.new_label(); x86::Gp cnt = cc.new_gp64(); cc.mov(cnt, 3);
+    cc.bind(L_loop);
+    for (size_t k = 0; k < v.size(); k += 2) { cc.add(acc, v[k]); expected += 3 * val[k]; }
+    cc.dec(cnt);
+    cc.jnz(L_loop);
+  }
   for (size_t i = 0; i < v.size(); i++) { cc.add(acc, v[i]); expected += val[i]; }
   if (aligned_local) { cc.add(acc, slot); expected += 0x1122334455ull; }
+  if (!xv.empty()) {
+    for (size_t i = 1; i < xv.size(); i++) cc.paddd(xv[0], xv[i]);
+    x86::Gp t = cc.new_gp64(); cc.movd(t.r32(), xv[0]); cc.add(acc, t); expected += uint64_t(vec_sum);
+  }
   cc.ret(acc);
   cc.end_func();
   if (cc.finalize() != Error::kOk) { printf("N skip finalize\n"); return; }
@@ -654,7 +878,9 @@ static void run_native_compiled(const Cmd& c) {
   const FuncFrame& f = fn->frame();
 
   // trampoline
-  uint32_t nstack = nargs > 6 ? 8 * (nargs - 6) : 0;
+  uint32_t nstack = win ? 32 + (nargs > 4 ? 8 * (nargs - 4) : 0) : (nargs > 6 ? 8 * (nargs - 6) : 0);
+  for (int i = 0; i < 32; i++) for (int j = 0; j < 16; j++) ctx.vec_in[i][j] = uint8_t(rnd() >> 9);
+  memset(ctx.vec_out, 0, sizeof(ctx.vec_out));
   uint32_t nstack_al = (nstack + 15u) & ~15u;
   const uint32_t kGuard = 64;
   ctx.pad = 16 * (rnd() % 8);
@@ -676,6 +902,7 @@ static void run_native_compiled(const Cmd& c) {
   if (nstack_al) a.sub(rsp, int32_t(nstack_al));
   for (uint32_t i = 0; i + 8 <= nstack_al; i += 8) { a.mov(rax, uint64_t(0x5A5A000000000000ull + i)); a.mov(ptr(rsp, int32_t(i)), rax); }
   a.mov(ptr(cx, O(offsetof(NativeCtx, call_sp))), rsp);
+  for (uint32_t i = 0; i < 16; i++) a.movups(Vec::make_xmm(i), ptr(cx, O(offsetof(NativeCtx, vec_in) + 16 * i)));
   for (uint32_t i = 0; i < 16; i++) { if (i == Gp::kIdSp || i == Gp::kIdBx) continue; a.mov(Gp::make_r64(i), ptr(cx, O(offsetof(NativeCtx, gp_in) + 8 * i))); }
   a.mov(rbx, ptr(cx, O(offsetof(NativeCtx, gp_in) + 8 * Gp::kIdBx)));
   a.call(ptr(L_tgt));
@@ -684,6 +911,7 @@ static void run_native_compiled(const Cmd& c) {
   for (uint32_t i = 1; i < 16; i++) { if (i == Gp::kIdSp) continue; a.mov(ptr(rax, O(offsetof(NativeCtx, gp_out) + 8 * i)), Gp::make_r64(i)); }
   a.mov(rcx, ptr(rsp, -8)); a.mov(ptr(rax, O(offsetof(NativeCtx, gp_out))), rcx);
   a.mov(ptr(rax, O(offsetof(NativeCtx, exit_sp))), rsp);
+  for (uint32_t i = 0; i < 16; i++) a.movups(ptr(rax, O(offsetof(NativeCtx, vec_out) + 16 * i)), Vec::make_xmm(i));
   a.cld(); a.lea(rsi, ptr(rsp, int32_t(nstack_al))); a.lea(rdi, ptr(rax, O(offsetof(NativeCtx, stack_copy)))); a.mov(ecx, kGuard / 8); a.rep().movsq();
   a.mov(rsp, ptr(rax, O(offsetof(NativeCtx, saved_rsp))));
   a.vzeroupper();
@@ -706,14 +934,15 @@ static void run_native_compiled(const Cmd& c) {
   if (sigsetjmp(g_jmp, 1) == 0) tramp();
   rt.release(tramp); rt.release(target);
   char shape[160];
-  snprintf(shape, sizeof(shape), "nargs=%u ngp=%u calls=%u fp=%d alignedLocal=%u da=%d localOff=%u callSize=%u", nargs, ngp, ncalls, int(fp),
+  snprintf(shape, sizeof(shape), "abi=%s nvec=%u nargs=%u ngp=%u calls=%u fp=%d alignedLocal=%u da=%d localOff=%u callSize=%u", win ? "win64" : "sysv", nvec, nargs, ngp, ncalls, int(fp),
            aligned_local ? local_align : 0, int(f.has_dynamic_alignment()), f.local_stack_offset(), f.call_stack_size());
   if (g_sig) { printf("N fault signal %d [%s]\n", g_sig, shape); return; }
   char why[200]; why[0] = 0;
   if (ctx.gp_out[0] != expected) snprintf(why, sizeof(why), "wrong-result expected=%#llx got=%#llx", (unsigned long long)expected, (unsigned long long)ctx.gp_out[0]);
   if (!why[0] && ctx.exit_sp != ctx.call_sp) snprintf(why, sizeof(why), "sp-after-return %+lld", (long long)(ctx.exit_sp - ctx.call_sp));
-  static const unsigned pres[6] = { 3, 5, 12, 13, 14, 15 };
-  for (unsigned k = 0; k < 6 && !why[0]; k++) if (ctx.gp_out[pres[k]] != ctx.gp_in[pres[k]]) snprintf(why, sizeof(why), "callee-saved-gp %u", pres[k]);
+  static const unsigned pres[8] = { 3, 5, 12, 13, 14, 15, 6, 7 };
+  for (unsigned k = 0; k < (win ? 8u : 6u) && !why[0]; k++) if (ctx.gp_out[pres[k]] != ctx.gp_in[pres[k]]) snprintf(why, sizeof(why), "callee-saved-gp %u", pres[k]);
+  for (unsigned k = 6; win && k < 16 && !why[0]; k++) if (memcmp(ctx.vec_in[k], ctx.vec_out[k], 16) != 0) snprintf(why, sizeof(why), "callee-saved-xmm %u", k);
   for (uint32_t i = 0; i < kGuard && !why[0]; i += 8) if (ctx.stack_copy[i / 8] != 0x6A6A000000000000ull + i) snprintf(why, sizeof(why), "caller-frame-clobbered +%u", i);
   if (why[0]) printf("N %s [%s]\n", why, shape); else printf("N ok [%s]\n", shape);
 }
@@ -756,6 +985,7 @@ int main() {
     if (n < 15) { if (n >= 1) printf("BAD\n"); continue; }
     if (k == 'F') do_frame(c);
     else if (k == 'C') do_compiled(c);
+    else if (k == 'A') do_args_frame(c);
     else if (k == 'N') run_native_compiled(c);
     else if (k == 'X') run_native(c);
     else printf("BAD\n");
